@@ -437,6 +437,38 @@ def case_helper(ctx, res, p):
                         detail={"max_abs_dev": float(np.max(np.abs(fa - fb)))}, signature=f"C18:helper-differs:{est}")
 
 
+def case_stale(ctx, res, p):
+    """A predictor built from one latent state must not survive a later inference: after process_inference on a hand-made
+    latent vector (documented override) a subsequent fit / run+process ends with the one-shot fitted values AND predictor.
+    (process_inference(pre_transformation=...) is outside the Lean model's alphabet: test only.)"""
+    cname, variant = p["config"], p["variant"]
+    est, kw, none_attrs, needs_y = config(cname)
+    ref = reference(cname)
+    res.case(("stale", cname, variant), True, {"op": "stale", "config": cname, "variant": variant})
+    res.count("stale:est=" + est)
+    with warnings.catch_warnings():
+        warnings.simplefilter("ignore")
+        e = make(est, kw)
+        e.prepare_inference(data((est, "J")))
+        z0 = e.initial_value
+        e.process_inference(pre_transformation=z0, build_predict=True)
+        _ = predict_at(est, e.predict)                      # the predictor of the hand-made state exists and is used
+        if variant == "fit":
+            e.fit()
+        elif variant == "run+process":
+            e.run_inference()
+            e.process_inference(build_predict=True)
+        else:
+            e.fit_predict()
+            _ = e.predict
+    fe = eq_flag(fitted_of(est, e), ref["fitted"])
+    pe = "E" if predict_at(est, e.predict).tobytes() == ref["pred"] else "D"
+    if fe != "E" or pe != "E":
+        res.oracle_fail("after a process_inference on a hand-made latent state, a later fit does not end with the one-shot "
+                        + ("fitted values" if fe != "E" else "predictor (a stale predictor survives)"), p,
+                        detail={"fitted": fe, "predictions": pe}, signature=f"C18:stale-predictor:{est}")
+
+
 def case_glue(ctx, res, p):
     """Every intermediate an estimator computes in prepare_inference is what the documented helper function of
     mellon.parameters returns for the estimator's other attributes - so that helper-made intermediates can be handed to a
@@ -534,7 +566,7 @@ def case_glue(ctx, res, p):
 
 def run_case(ctx, res, p):
     return {"history": case_history, "subset": case_subset, "helper": case_helper,
-            "pipeline": case_pipeline, "glue": case_glue}[p["op"]](ctx, res, p)
+            "pipeline": case_pipeline, "glue": case_glue, "stale": case_stale}[p["op"]](ctx, res, p)
 
 
 def model_legal(ctx, cname, ops):
@@ -605,6 +637,8 @@ def run(ctx, res):
     for S in (["mu"], ["ls", "d"], ["nn_distances", "mu", "ls"]) if quick else (["mu"], ["ls"], ["d"], ["nn_distances"], ["mu", "ls"],
                                                                               ["ls", "d"], ["nn_distances", "mu", "ls"], list(CACHEABLES)):
         run_case(ctx, res, {"op": "subset", "config": "T-auto", "subset": S})
+    for c_, v_ in (("D-full", "fit"), ("D-sparse", "run+process"), ("T-full", "fit"), ("M-full", "fit"), ("D-sparse", "fit_predict")):
+        run_case(ctx, res, {"op": "stale", "config": c_, "variant": v_})
     glue_plan = [("D", {}), ("D", {"landmarks": True}), ("D", {"landmarks": True, "gp_type": "sparse_nystroem", "rank": 3}),
                  ("D", {"gp_type": "full_nystroem", "rank": 0.9, "ls_factor": 2.0}), ("T", {}), ("T", {"normalize": True}),
                  ("T", {"normalize": True, "landmarks": True}), ("T", {"normalize": [4.0, 9.0, 6.0]}), ("T", {"landmarks": True, "gp_type": "fixed"}), ("M", {})]
